@@ -1,3 +1,7 @@
+// counting allocator of the C09 allocation oracle (defined in thrift2.rs; a library must not install one)
+#[global_allocator]
+static GLOBAL: rt::thrift2::CountingAlloc = rt::thrift2::CountingAlloc;
+
 fn main() {
     rt::run_main(rt::MODULES);
 }
